@@ -3,6 +3,10 @@
 package cluster
 
 import (
+	"fmt"
+	"os"
+	"strconv"
+	"strings"
 	"time"
 
 	"github.com/semafind/semadb/models"
@@ -42,4 +46,26 @@ func VerifDistributePoints(shards []VerifShardInfo, points []models.Point, maxSh
 		in[i] = shardInfo{Id: s.Id, Size: s.Size, PointCount: s.PointCount}
 	}
 	return distributePoints(in, points, maxShardSize, maxShardPointCount, createShardFn)
+}
+
+// verifSyncFault is a fault point of the start-up synchronisation. The
+// environment variable VERIF_SYNC_FAULT = "<role>:<chunk>:<mode>" (role send |
+// recv | phase, mode exit | fail) makes the matching point kill the process or
+// return an error; it is read once per process.
+func verifSyncFault(role string, chunk int) error {
+	spec := os.Getenv("VERIF_SYNC_FAULT")
+	if spec == "" {
+		return nil
+	}
+	parts := strings.Split(spec, ":")
+	if len(parts) != 3 || parts[0] != role {
+		return nil
+	}
+	if k, err := strconv.Atoi(parts[1]); err != nil || k != chunk {
+		return nil
+	}
+	if parts[2] == "exit" {
+		os.Exit(7)
+	}
+	return fmt.Errorf("injected sync fault at %s chunk %d", role, chunk)
 }
